@@ -249,8 +249,66 @@ pub fn growers_family(ctx: &mut Ctx) {
     }
 }
 
+/// (nesting) the cost of one step is bounded by the SIZE of the items it touches, not exponential in their
+/// nesting depth: every CODE / EXEC / LIST instruction on items nested 40 and 64 levels deep (81 / 129 points),
+/// one step each under the armed allocation budget and the watchdog.
+pub fn nesting_family(ctx: &mut Ctx) {
+    let mut real = Real::new();
+    let names: Vec<String> = real.names().into_iter().filter(|n| n.starts_with("CODE.") || n.starts_with("EXEC.") || n.starts_with("LIST.") || n == "NAME.QUOTE").filter(|n| n != "EXEC.CMD" && n != "CODE.RAND" && !crate::alpha::size_like(n)).collect();
+    let nest = |depth: usize, leaf: i32| {
+        let mut t = Tree::L(vec![Tree::I(leaf)]);
+        for k in 0..depth {
+            t = if k % 2 == 0 { Tree::L(vec![t]) } else { Tree::L(vec![Tree::I(k as i32), t]) };
+        }
+        t
+    };
+    for depth in [40usize, 64] {
+        for name in &names {
+            let id = match ctx.take() {
+                Some(id) => id,
+                None => continue,
+            };
+            ctx.transitions += 1;
+            ctx.states += 1;
+            let mut m0 = M::default();
+            m0.c = vec![nest(depth, 1), nest(depth, 2), nest(depth, 1)];
+            m0.e = vec![nest(depth, 3), nest(depth, 3), Tree::I(9)];
+            m0.i = vec![depth as i32, 1, 0, 2];
+            m0.b = vec![true, false];
+            m0.n = vec!["A".into(), "B".into()];
+            m0.iv = vec![vec![5, 9, 1], vec![9]];
+            m0.x = vec![(0, 2)];
+            ctx.crumb(id, &format!("{}|nest|{}", name, depth));
+            let before = with_instr(&m0, name);
+            let t0 = std::time::Instant::now();
+            let s0 = budget::snapshot();
+            budget::arm(256 * MIB, 20_000_000);
+            let out = step_once(&mut real, &before);
+            budget::disarm();
+            let s1 = budget::snapshot();
+            let wall = t0.elapsed().as_secs_f64();
+            let (bytes, allocs) = (s1.bytes - s0.bytes, s1.allocs - s0.allocs);
+            let (okey, verdict) = match &out {
+                Outcome::Panic(p) => (panic_class(p), Verdict::fail(name, &panic_class(p), p.clone())),
+                Outcome::Ok(_) => {
+                    // the items hold ~100 points each: a step that needs more than a million allocations or 5 s
+                    // is not bounded by their size
+                    if allocs > 1_000_000 || bytes > 64 * MIB || wall > 5.0 {
+                        ("over".to_string(), Verdict::fail(name, "cost-exponential-in-nesting", format!("items nested {} deep ({} points): {} bytes, {} allocations, {:.2} s in one step", depth, 2 * depth + 1, bytes, allocs, wall)))
+                    } else {
+                        (format!("{}|{}|ok", name, depth), Verdict::Pass)
+                    }
+                }
+            };
+            ctx.nontrivial_mark(&format!("{}|{}", name, depth));
+            ctx.record(id, &okey, verdict, || format!("{} on items nested {} levels deep", name, depth));
+        }
+    }
+}
+
 pub fn run(ctx: &mut Ctx) {
     match ctx.family.as_str() {
+        "nesting" => nesting_family(ctx),
         "ladder" => ladder_family(ctx),
         "growers" => growers_family(ctx),
         f => panic!("unknown family {}", f),
